@@ -405,7 +405,41 @@ def generate(seed, tier):
         _halfopen_batch(sc, r)
     elif r.random() < 0.15:
         _rekey_window_batch(sc, r)
+    elif r.random() < 0.15:
+        _history_batch(sc, r)
     return sc
+
+
+def _history_batch(sc, r):
+    """Batch 'history' (clause: an ACQUIRE is negotiated, on the existing IKE_SA, to an SA with the entry's parameters - whatever that IKE_SA
+    did before).  Lossless, nobody restarts.  An endpoint's kernel raises ACQUIREs for its entries one after the other, and between them the
+    IKE_SA goes through exchanges of its own: CHILD_SA rekeys started by either end (soft EXPIRE), a CHILD_SA deleted (hard EXPIRE), DPD."""
+    who = r.choice('AB')
+    rc = next(iter(configs.read_conf(sc['nodes'][who]['conf']).values()))
+    for nd in sc['nodes'].values():
+        for c in nd['conf'].values():
+            c['lifetime'], c['dpd'] = 10000, r.choice([4, 600])
+            for p in c['protect']:
+                p['lifetime'] = 600
+    ops = [{'t': 0.0, 'op': 'start', 'node': 'A'}, {'t': 0.05, 'op': 'start', 'node': 'B'}]
+    t = 1.0
+    ents = list(range(len(rc['protect'])))
+    r.shuffle(ents)
+    for i, e in enumerate(ents + ents[:1]):
+        ops.append({'t': round(t, 3), 'op': 'packet', 'node': who, 'flow': configs.flow_for_entry(r, rc['my_addr'], rc['peer_addr'], rc['protect'][e])})
+        t += r.choice([0.7, 1.5, 3.0])
+        for _ in range(r.randint(0, 2)):
+            ops.append({'t': round(t, 3), 'op': 'expire', 'node': r.choice([who, who, 'A', 'B']), 'which': r.randrange(4), 'dir': r.choice(['in', 'out']),
+                        'hard': int(r.random() < 0.25)})
+            t += r.choice([0.7, 1.5, 3.0])
+    sc['ops'] = ops
+    sc['fates'] = {}
+    sc['fate_policy'] = {'mode': 'deliver'}
+    sc['until'] = round(t + 4.0, 3)
+    sc['quiet_from'] = sc['until']
+    sc['meta']['batch'] = 'history'
+    sc['meta']['faults'] = []
+    sc.pop('probe_flow', None)
 
 
 def _rekey_window_batch(sc, r):
@@ -479,6 +513,17 @@ def run(scenario):
         from sim.wiretap import Wiretap
         orc.tap = ctx['tap'] = Wiretap(w, check_reencode=False)
         ctx['probes'] = []
+        ctx['delivered'] = {}
+
+        class Deliveries:
+            def before_delivery(self, node, data, src, dst, meta):
+                ctx['delivered'].setdefault(node.name, {}).setdefault(bytes(data), w.now)
+
+            def after_step(self, node, cause):
+                # the daemon was alive to look at it (a crash countdown may end in the middle of any step)
+                if isinstance(cause, tuple) and cause and cause[0] == 'dgram' and node.state == 'running' and not node.exited and not node.has_readable():
+                    ctx.setdefault('processed', {}).setdefault(node.name, set()).add(bytes(cause[1]))
+        w.monitors.append(Deliveries())
 
         def preload(w, op):
             node = w.nodes[op['node']]
@@ -621,6 +666,32 @@ def run(scenario):
             w.net.taps.append(RekeyWindow())
 
     def at_end(w, ctx):
+        # ---- an ACQUIRE that was negotiated is negotiated to an SA: a CREATE_CHILD_SA for an additional CHILD_SA that the peer answered with
+        #      an SA, promptly and with the answer delivered, ends with the pair installed at the endpoint that asked
+        from sim.childcheck import newsa_index, quad
+        orc_ = ctx['oracle']
+        idx = {n: newsa_index(node) for n, node in w.nodes.items()}
+        down = [(o['t'], o['node']) for o in scenario['ops'] if o['op'] in ('crash', 'stop', 'restart')]
+        for ch in ctx['tap'].children:
+            if ch['initial'] or ch['rekey_of'] is not None or ch['req'].get('rewritten') or w.violations:
+                continue
+            x = ch['x_init']
+            got = ctx['delivered'].get(x, {}).get(ch['res']['raw'])
+            if got is None or got - ch['req']['t'] > 1.0 or any(n == x and ch['req']['t'] - 1 <= t_ <= got + 1 for (t_, n) in down) or \
+                    ch['res']['raw'] not in ctx.get('processed', {}).get(x, ()):
+                continue
+            node = w.nodes[x]
+            if any(r_['injected'] for r_ in node.kernel.requests if abs(r_['t'] - got) < 1e-9):
+                continue
+            q = quad(w, ch, idx)
+            orc_._r('additional_child_sa_answers_judged')
+            if q is not None and q[0] is None and q[2] is None:
+                w.violation(PROP, 'negotiated_child_sa_never_installed', {'requester_role': 'ike_initiator' if ch['req']['h']['I'] else 'ike_responder'},
+                            f'{x} asked for an additional CHILD_SA at t={ch["req"]["t"]:.2f} (TSi {ch["tsi_offer"]}, TSr {ch["tsr_offer"]}), {ch["x_resp"]} '
+                            f'answered with an SA (SPIs {ch["spi_init"].hex()}/{ch["spi_resp"].hex()}) delivered at t={got:.2f}, but {x} never handed '
+                            f'either half to its kernel; its kernel requests at that instant: '
+                            f'{[(r_["type"], r_["errno"]) for r_ in node.kernel.requests if abs(r_["t"] - got) < 1e-9]}')
+                return
         pr = ctx['probes']
         if pr and any(p[1] for p in pr):
             ctx['oracle']._r('probe_after_restart_ok')
